@@ -168,8 +168,24 @@ def lockstep(ctx, R, tog):
         for c in s2.calls_to(tog):
             n += 1
             a = norm(c['argvals'][roles['bb'] - 1])
-            if a[0] == 'call' and a[1] in single:
-                ctx.ok(R, 'call site passes %s(..) (one square)' % a[1].rsplit('::', 1)[1], where(s2.body, c['line']))
+
+            def one_square(a_, fn_key, depth=0):
+                """is the set a single-square constructor -- directly, or a parameter of a private helper all of whose
+                call sites pass one (followed one level up)?"""
+                if a_[0] == 'call' and a_[1] in single:
+                    return True
+                if a_[0] == 'param' and depth < 2 and not (f.fns.get(fn_key) or {}).get('pub', True):
+                    sites = []
+                    for k3, b3 in f.bodies.items():
+                        if any(t_.get('callee') == fn_key for _, t_ in b3.calls()):
+                            s3 = ctx.an().summary(k3)
+                            sites += [(k3, c3) for c3 in s3.calls_to(fn_key)]
+                    return bool(sites) and all(one_square(norm(c3['argvals'][a_[1] - 1]), k3, depth + 1) for k3, c3 in sites)
+                return False
+            if one_square(a, key2):
+                ctx.ok(R, 'call site passes %s (one square)' % (a[1].rsplit('::', 1)[1] + '(..)' if a[0] == 'call' else
+                                                                  'a parameter that is a single square at every call of the private helper'),
+                       where(s2.body, c['line']))
             else:
                 ok = False
                 ctx.violation(R, 'callsite:%s:%s' % (key2, sh(a, 60)),
